@@ -56,8 +56,19 @@ def finite_case(draw):
     # make sure the loop can stop: reassign g by a choice that takes the stopping value with positive probability
     body.insert(c.integer(0, len(body)), ["assign", g, ["choice", [L.num(stopv), L.num(init_val)], [L.num(c.pick(PS))]]])
     init = [["assign", g, ["expr", L.num(init_val)]]]
+    second = None
+    if nf >= 2 and c.b(0.4):
+        # conjunction guard: the loop can also stop through the second conjunct while the first still holds
+        second = gen.FINITE_NAMES[1]
+        D2 = c.fin[second]
+        iv2 = c.pick(D2)
+        st2 = c.pick([x for x in D2 if x != iv2])
+        guard = ["and", guard, ["cmp", L.var(second), "==", L.num(iv2)]]
+        body.insert(c.integer(0, len(body)), ["assign", second, ["choice", [L.num(st2), L.num(iv2)], [L.num(c.pick(PS))]]])
+        init.append(["assign", second, ["expr", L.num(iv2)]])
     for f in list(c.fin)[1:]:
-        init.append(["assign", f, ["expr", L.num(c.pick(c.fin[f]))]])
+        if f != second:
+            init.append(["assign", f, ["expr", L.num(c.pick(c.fin[f]))]])
     if c.uses_counter:
         return None
     prog = {"types": {}, "init": init, "guard": guard, "body": body}
